@@ -16,7 +16,7 @@ Implementation-side oracles (no model involved):
     enclosed, siblings ordered and disjoint, a name's span spells exactly the name; every
     diagnostic's location lies in the document.
 """
-import json, os, re, sys
+import bisect, json, os, re, sys
 from . import common, c05
 from .common import hexs, unhex
 
@@ -176,10 +176,13 @@ def walk_oracle(data, ans, hist=None):
     # (conservation - every comment of the text is attached exactly once - is C09's property: finding C09-F2 is open)
     if True:
         lower = {}
+        parent = {}
         anc = []
         for n in nodes:               # lower bound of a leading comment: nearest ancestor starting earlier
             while anc and anc[-1][0] >= n[0]:
                 anc.pop()
+            if anc:
+                parent[id(n)] = anc[-1]
             lb = 0
             for x in reversed(anc):
                 if x[2] < n[2]:
@@ -187,12 +190,21 @@ def walk_oracle(data, ans, hist=None):
             lower[id(n)] = lb
             anc.append(n)
         end_of_code = max([n[3] for n in roots if n[1] in ("import", "toplevel")] or [0])
+        starts = sorted(n[2] for n in nodes)
         for role, c, o in attached:
             cands = [(a, b) for cc, a, b in ctoks if cc == c and a is not None and b is not None]
             if o is None:
                 continue
             if role == "lead":
-                okc = any(lower.get(id(o), 0) <= a and b <= o[3] for a, b in cands)
+                # before or inside the owner; or - a comment in front of the `)` / `,` that closes a parenthesised or
+                # listed expression is appended to that expression's leftmost leaf (C09's fixes bf0f58a, a2afe54) -
+                # between the end of the outermost node that starts where the owner starts and the next node after it
+                top = o
+                while id(top) in parent and parent[id(top)][2] == o[2]:
+                    top = parent[id(top)]
+                k = bisect.bisect_left(starts, max(top[3], top[2] + 1))
+                nxt = starts[k] if k < len(starts) else len(data)
+                okc = any(lower.get(id(o), 0) <= a and b <= max(top[3], nxt) for a, b in cands)
             elif role == "inner":
                 okc = any(o[2] <= a and b <= o[3] for a, b in cands)
             else:
